@@ -663,6 +663,67 @@ def r6(ctx):
 def r7(ctx):
     fn = "util::capabilities::parse_capabilities"
     hir = ctx.anchor_hir(fn)
+    # the same table by evaluation of the whole function on crafted `security.capability` values (struct vfs_cap_data:
+    # magic_etc with the revision in its top byte and the effective flag in its lowest bit, then (permitted, inheritable) pairs
+    # of little-endian words, revision 3 followed by a root id): each capability set alone in the permitted word of revision
+    # 2 and of revision 3 (written for files capped inside a user namespace), the low 32 also in revision 1
+    import interp
+    ps7 = ctx.prog.fns[fn]["params"]
+
+    def attr(rev, bit, inheritable=False, both=False, effective=True):
+        lo = hi = 0
+        if bit < 32:
+            lo = 1 << bit
+        else:
+            hi = 1 << (bit - 32)
+        pl, il, ph, ih = (lo, lo, hi, hi) if both else ((0, lo, 0, hi) if inheritable else (lo, 0, hi, 0))
+        words = [(rev << 24) | (1 if effective else 0), pl, il] + ([ph, ih] if rev >= 2 else []) + ([1000] if rev == 3 else [])
+        out = []
+        for w in words:
+            out += list(w.to_bytes(4, "little"))
+        return out
+    nev = 0
+    bad7 = []
+    for bit, name in enumerate(oracles.CAPABILITIES):
+        for rev in (1, 2, 3):
+            if rev == 1 and bit >= 32:
+                continue
+            for inh in (False, True):
+                try:
+                    got = interp.Interp(prog=ctx.prog, max_steps=300000).run(hir, {ps7[0]["id"]: attr(rev, bit, inh)})
+                except interp.Undecided as e:
+                    bad7.append("cannot evaluate parse_capabilities: %s" % e)
+                    break
+                nev += 1
+                names = [w.split("=")[0] for w in str(got).replace(",", " ").split()]
+                if names != [name]:
+                    bad7.append("an attribute of revision %d with only %s (number %d) %s yields `%s`" % (rev, name, bit, "inheritable" if inh else "permitted", got))
+            if bad7 and bad7[-1].startswith("cannot"):
+                break
+        if bad7 and bad7[-1].startswith("cannot"):
+            break
+    ctx.obligation(not bad7)
+    if bad7:
+        ctx.violation("capability/by-evaluation", ctx.where(fn), "every capability set in a security.capability value of revision 1, 2 or 3 must be named, and no other: %s" % "; ".join(bad7[:3]))
+    # the flag letters: e(ffective) from the flag bit of the header, p(ermitted) / i(nheritable) from the word the bit is set in
+    if not bad7:
+        for bit in (0, 33):
+            for both, inh, eff, want in ((False, False, True, "ep"), (False, True, True, "ei"), (True, False, True, "eip"), (False, False, False, "p"), (True, False, False, "ip")):
+                try:
+                    got = interp.Interp(prog=ctx.prog, max_steps=300000).run(hir, {ps7[0]["id"]: attr(2, bit, inh, both, eff)})
+                except interp.Undecided as e:
+                    bad7.append("cannot evaluate parse_capabilities: %s" % e)
+                    break
+                nev += 1
+                fl = str(got).split("=")[-1] if "=" in str(got) else None
+                if fl is None or sorted(fl) != sorted(want):
+                    bad7.append("capability %d %s%s%s is shown as `%s`, expected the flags `%s`" % (bit, "permitted" if not inh else "inheritable", " and inheritable" if both else "", ", effective" if eff else "", got, want))
+        if bad7:
+            ctx.obligation(False)
+            ctx.violation("capability/flags", ctx.where(fn), "; ".join(bad7[:3]))
+    ctx.covered("parse_capabilities evaluated on one-capability attributes (41 capabilities x revisions 1-3 x permitted / inheritable; flag letters)", nev, distinct_keys=["rev1", "rev2", "rev3", "flags"], exhaustive=True)
+    if not any(b_.startswith("cannot") for b_ in bad7):
+        return          # decided by evaluation; the table below is read only where the function cannot be evaluated
     locs = Locals(hir)
     # word of each `permitted` / `inherited` local: the byte range it is read from
     ranges = {}
@@ -691,48 +752,6 @@ def r7(ctx):
                 inh = peel(call["args"][1]).get("res")
                 rows.append((name[0] if name else None, code, ranges.get(perm), ranges.get(inh), x))
     ctx.floor(len(rows), 41, "capability rows in parse_capabilities", fn)
-    # the same table by evaluation of the whole function on crafted `security.capability` values (struct vfs_cap_data:
-    # magic_etc with the revision in its top byte and the effective flag in its lowest bit, then (permitted, inheritable) pairs
-    # of little-endian words, revision 3 followed by a root id): each capability set alone in the permitted word of revision
-    # 2 and of revision 3 (written for files capped inside a user namespace), the low 32 also in revision 1
-    import interp
-    ps7 = ctx.prog.fns[fn]["params"]
-
-    def attr(rev, bit, inheritable=False):
-        lo = hi = 0
-        if bit < 32:
-            lo = 1 << bit
-        else:
-            hi = 1 << (bit - 32)
-        words = [(rev << 24) | 1] + ([0, lo] if inheritable else [lo, 0]) + (([0, hi] if inheritable else [hi, 0]) if rev >= 2 else []) + ([1000] if rev == 3 else [])
-        out = []
-        for w in words:
-            out += list(w.to_bytes(4, "little"))
-        return out
-    nev = 0
-    bad7 = []
-    for bit, name in enumerate(oracles.CAPABILITIES):
-        for rev in (1, 2, 3):
-            if rev == 1 and bit >= 32:
-                continue
-            for inh in (False, True):
-                try:
-                    got = interp.Interp(prog=ctx.prog, max_steps=300000).run(hir, {ps7[0]["id"]: attr(rev, bit, inh)})
-                except interp.Undecided as e:
-                    bad7.append("cannot evaluate parse_capabilities: %s" % e)
-                    break
-                nev += 1
-                names = [w.split("=")[0] for w in str(got).replace(",", " ").split()]
-                if names != [name]:
-                    bad7.append("an attribute of revision %d with only %s (number %d) %s yields `%s`" % (rev, name, bit, "inheritable" if inh else "permitted", got))
-            if bad7 and bad7[-1].startswith("cannot"):
-                break
-        if bad7 and bad7[-1].startswith("cannot"):
-            break
-    ctx.obligation(not bad7)
-    if bad7:
-        ctx.violation("capability/by-evaluation", ctx.where(fn), "every capability set in a security.capability value of revision 1, 2 or 3 must be named, and no other: %s" % "; ".join(bad7[:3]))
-    ctx.covered("parse_capabilities evaluated on one-capability attributes (41 capabilities x revisions 1-3 x permitted / inheritable)", nev, distinct_keys=["rev1", "rev2", "rev3"], exhaustive=True)
     n = 0
     seen = set()
     for name, code, pr, ir, node in rows:
